@@ -246,9 +246,13 @@ func (g *pgen) expr(d int) Expr {
 			f := g.asyncs[g.t.Draw(len(g.asyncs))]
 			g.use("await-async-call")
 			aw := &EAwait{E: &EAsyncStart{Fn: f.Name, Args: []Expr{g.expr(d - 1)}}}
-			if g.t.Draw(3) == 2 {
+			switch g.t.Draw(4) {
+			case 2:
 				g.use("await-promise-with-foreign-constructor")
-				aw.Tamper = true
+				aw.Tamper = 1
+			case 3:
+				g.use("await-promise-with-throwing-constructor-getter")
+				aw.Tamper, aw.TamperVal = 2, 1500+g.ns()
 			}
 			return aw
 		}
